@@ -267,11 +267,17 @@ func (in *Interp) intrinsic(fr *frame, fn *ssa.Function, args []Value, pos token
 	case "reflect.TypeOf", "reflect.ValueOf":
 		in.fail("unsupported", "reflection: "+full)
 	case "go.mongodb.org/mongo-driver/bson/primitive.NewObjectID":
-		in.addrSeq++
+		// generated ObjectIDs: pairwise distinct and increasing in generation order (the driver builds
+		// them from a timestamp and a process-wide counter); concrete, so that index lookups on
+		// generated ids do not fork. Harnesses that need ids in arbitrary order supply them.
+		in.oidSeq++
 		a := make(Array, 12)
 		for i := range a {
-			a[i] = in.fresh(fmt.Sprintf("$newoid%d.%d", in.addrSeq, i), SBV, 8)
+			a[i] = BVc(8, 0)
 		}
+		a[0] = BVc(8, 0x65) // a plausible timestamp byte
+		a[10] = BVc(8, uint64(in.oidSeq>>8))
+		a[11] = BVc(8, uint64(in.oidSeq))
 		return a, true
 	case "go.mongodb.org/mongo-driver/bson/primitive.NewDateTimeFromTime":
 		// time values are Struct{ms}: see timeCall
